@@ -24,6 +24,11 @@ def main(argv):
   out['wall_s'] = round(time.time() - t0, 3)
   sys.stdout.write('\n@@VPJSON@@' + json.dumps(out, default=repr) + '\n')
   sys.stdout.flush()
+  try:
+    import atexit
+    atexit._run_exitfuncs()      # harness temp dirs are removed by atexit handlers
+  except BaseException:
+    pass
   os._exit(0)
 
 
